@@ -5,6 +5,7 @@ import NomtModel.Driver.AllocMode
 import NomtModel.Driver.LocksMode
 import NomtModel.Driver.WalImage
 import NomtModel.Driver.OvlMode
+import NomtModel.Driver.BitOpsMode
 /-!
 `nomt_model`: the executable Lean model behind a line protocol.
 First argument selects the sub-protocol; stdin → stdout, one output line per input line.
@@ -29,4 +30,5 @@ def main (args : List String) : IO UInt32 := do
   | ["locks"] => loop stdin stdout locksStep locksInit; return 0
   | ["wal"] => walLoop stdin stdout; return 0
   | ["ovl"] => loop stdin stdout ovlStep {}; return 0
+  | ["bitops"] => loop stdin stdout bitopsStep (); return 0
   | _ => IO.eprintln "usage: nomt_model <core|...>"; return 2
